@@ -152,7 +152,7 @@ func (p *Prog) FuncFnField() string {
 			if name != "" {
 				return ""
 			}
-			name = s.Field(i).Name()
+			name = canonFieldName(s, i)
 		}
 	}
 	return name
